@@ -15,6 +15,16 @@ CHECKS = {
          "Generated problems visited along histories; every Jacobian column is checked against the orthogonality/range characterisation of -(I-P) W D_k C, the harness' own projector, Richardson finite differences of the projected objective, and each derivative call of jacobian() is made to fail in turn (None expected).",
          "Trusted: harness f64 linear algebra, catalogue formulas (self-tested by central differences); premise full column rank decided by the oracle's singular values; tolerances calibrated by a reference pipeline (nalgebra SVD).",
          "§4 C03"),
+ "C06": ("exploration",
+         "property-based differential testing (proptest): weighted problem vs row-scaled unweighted twin, plus metamorphic relations for unit and zero weights",
+         "Generated weighted problems are compared, at every alpha of an LM run, after independent fits and in their statistics, with an unweighted twin whose model rows and observations are pre-multiplied by the weights; all-ones weights are compared with no weights; zero-weight rows are perturbed and deleted.",
+         "Trusted: the twin's row scaling (harness code, one multiplication per entry). Comparisons are bitwise where the computations coincide, otherwise condition-aware tolerances (kappa-gated, gated cases counted).",
+         "§4 C06"),
+ "C07": ("exploration",
+         "property-based differential testing (proptest): S-column problem vs S single-column problems, column-permutation metamorphic relation",
+         "Generated multi-rhs problems are compared block by block with single-rhs problems for each column at construction, after caller updates and at every alpha of an LM run; a column-permuted problem must show the permuted blocks.",
+         "Trusted: nothing beyond the public constructors; comparisons bitwise, else condition-aware tolerance relative to |W D_k c| for Jacobian blocks.",
+         "§4 C07"),
  "C01": ("exploration",
          "property-based testing (proptest, 16 seeded shards) with independent linear-algebra oracle + metamorphic linearity relation",
          "Generated search over models x alpha x data x weights x thresholds x flavours, visiting construction, caller updates and every LM trial step; each reported coefficient matrix is checked against optimality predicates (truncated normal equations, minimum norm) and an independently written f64 Jacobi-SVD pseudo-inverse. Establishes absence of violations only on the explored cases; shrunk counterexamples become replay files.",
